@@ -81,6 +81,14 @@ func RunLatch(seed int64, dur time.Duration) (out []Ev) {
 		lr := rand.New(rand.NewSource(seed*31 + int64(g)))
 		go func() {
 			defer wg.Done()
+			// a panic of the library under concurrent use is something the real code did: it is recorded (no action of the
+			// specification explains it) and the run winds down
+			defer func() {
+				if r := recover(); r != nil {
+					w.T.Log(Ev{"e": "panic", "t": "stress", "what": fmt.Sprint(r), "stack": string(debug.Stack())})
+					atomic.StoreInt32(&stop, 1)
+				}
+			}()
 			for atomic.LoadInt32(&stop) == 0 {
 				i := lr.Intn(len(rows))
 				if lr.Intn(4) == 0 { // two rows (often in different blocks) in one transaction
@@ -94,7 +102,16 @@ func RunLatch(seed int64, dur time.Duration) (out []Ev) {
 					})
 					continue
 				}
-				P.QueryAt(rows[i], func(r column.Row) error { write(r, atomic.AddInt64(&ver[i], 1)); return nil })
+				// now and then a writer gives up after buffering its writes: the rollback must leave nothing behind - no value,
+				// and no transaction object that two goroutines would then share
+				abort := lr.Intn(40) == 0
+				P.QueryAt(rows[i], func(r column.Row) error {
+					write(r, atomic.AddInt64(&ver[i], 1))
+					if abort {
+						return ErrFail
+					}
+					return nil
+				})
 			}
 		}()
 	}
@@ -118,6 +135,14 @@ func RunLatch(seed int64, dur time.Duration) (out []Ev) {
 		lr := rand.New(rand.NewSource(seed*17 + int64(g)))
 		go func() {
 			defer wg.Done()
+			// a panic of the library under concurrent use is something the real code did: it is recorded (no action of the
+			// specification explains it) and the run winds down
+			defer func() {
+				if r := recover(); r != nil {
+					w.T.Log(Ev{"e": "panic", "t": "stress", "what": fmt.Sprint(r), "stack": string(debug.Stack())})
+					atomic.StoreInt32(&stop, 1)
+				}
+			}()
 			local := seenT{}
 			note := func(o uint32, a int64, b int32, s string) {
 				if local[o] == nil {
